@@ -32,14 +32,16 @@ Params == {p \in {<<nv, nf, nss, ev, sb>> : nv \in UNION {NvSet(x) : x \in NssSe
               Header(p[1], p[2], Len(syms), p[3], Len(p[4])) = "ok"}
 RECURSIVE StrR(_)
 StrR(s) == IF s = <<>> THEN "" ELSE s[1] \o StrR(Tail(s))
-Row(p) == LET r == Decode(syms, p[1], p[2], p[3], p[4], p[5]) IN
-          [s |-> StrR(syms), nv |-> p[1], nf |-> p[2], nss |-> p[3], ev |-> p[4], sb |-> p[5], out |-> r.out, np |-> r.np, faces |-> r.faces]
+Row(p) == LET r == Decode(syms, p[1], p[2], p[3], p[4], p[5])  o == Order(r, p[2]) IN
+          [s |-> StrR(syms), nv |-> p[1], nf |-> p[2], nss |-> p[3], ev |-> p[4], sb |-> p[5], out |-> r.out, np |-> r.np, faces |-> r.faces,
+           trav |-> o.trav, vidx |-> o.vidx]
 \* a string that does not start with E is refused at its first symbol whatever the parameters are: one tuple stands for all
 PSet == IF syms[1] = "E" \/ Params = {} THEN Params ELSE {CHOOSE p \in Params : TRUE}
 EmitRows == (Emit /\ Len(syms) >= 1) => \A p \in PSet : PrintT(ToJson(Row(p)))
 \* the same strings and parameters through the valence traversal (strings that start with E only: the first symbol is E by definition)
-RowV(p) == LET r == DecodeV(syms, p[1], p[2], p[3], p[4], p[5]) IN
-          [mode |-> "val", s |-> StrR(syms), nv |-> p[1], nf |-> p[2], nss |-> p[3], ev |-> p[4], sb |-> p[5], out |-> r.out, np |-> r.np, faces |-> r.faces, ctx |-> r.ctx]
+RowV(p) == LET r == DecodeV(syms, p[1], p[2], p[3], p[4], p[5])  o == Order(r, p[2]) IN
+          [mode |-> "val", s |-> StrR(syms), nv |-> p[1], nf |-> p[2], nss |-> p[3], ev |-> p[4], sb |-> p[5], out |-> r.out, np |-> r.np, faces |-> r.faces, ctx |-> r.ctx,
+           trav |-> o.trav, vidx |-> o.vidx]
 EmitRowsV == (Emit /\ Len(syms) >= 1 /\ syms[1] = "E") => \A p \in Params : PrintT(ToJson(RowV(p)))
 GuardsV == (Len(syms) >= 1 /\ syms[1] = "E") => \A p \in Params : ConnValid(DecodeV(syms, p[1], p[2], p[3], p[4], p[5]))
 \* the header guards on their own: every small tuple of declared counts over a string of E symbols
